@@ -160,8 +160,23 @@ def path_of(particle):
     return tuple(reversed(out))
 
 
+def _warm_up(kernel, td, sigma, alpha, rng):
+    """Library use across a concentration change: the same kernel object first runs a pass under a
+    different alpha (filling every memo), then alpha is assigned in place; no cache is cleared."""
+    import numpy as np
+    from phyclone.smc.samplers import SMCSampler
+
+    td.prior.alpha = 2.9
+    kernel._rng = np.random.default_rng(5)
+    for _ in range(3):
+        SMCSampler(list(sigma), kernel, num_particles=4, resample_threshold=0.5).sample()
+    td.prior.alpha = alpha
+    kernel._rng = rng
+
+
 def weights_case(item):
-    kname, op, perm, alpha, n, order = item
+    kname, op, perm, alpha, n, order = item[:6]
+    warm = len(item) > 6 and item[6]
     from phyclone.tree import FSCRPDistribution, TreeJointDistribution
     from phyclone.smc.samplers import SMCSampler, ConditionalSMCSampler
     from phyclone.smc.utils import RootPermutationDistribution
@@ -185,6 +200,8 @@ def weights_case(item):
         def run(rng):
             S.clear_caches()
             kernel = _kernel(kname, rng, td, op, perm)
+            if warm:
+                _warm_up(kernel, td, sigma, alpha, rng)
             sw = SMCSampler(list(sigma), kernel, num_particles=1, resample_threshold=0.0).sample()
             return path_of(sw.particles[0]), float(sw.unnormalized_log_weights[0])
 
@@ -209,6 +226,8 @@ def weights_case(item):
             def run2(rng):
                 S.clear_caches()
                 kernel = _kernel(kname, rng, td, op, perm)
+                if warm:
+                    _warm_up(kernel, td, sigma, alpha, rng)
                 sw = SMCSampler(list(sigma), kernel, num_particles=2, resample_threshold=0.0).sample()
                 u = sw.unnormalized_log_weights
                 return path_of(sw.particles[0]), float(u[0]), path_of(sw.particles[1]), float(u[1])
@@ -234,6 +253,8 @@ def weights_case(item):
             def runc(rng, x=x):
                 S.clear_caches()
                 kernel = _kernel(kname, rng, td, op, perm)
+                if warm:
+                    _warm_up(kernel, td, sigma, alpha, rng)
                 sm = ConditionalSMCSampler(oracle.build(x, data), list(sigma), kernel, num_particles=2, resample_threshold=0.0)
                 sw = sm.sample()
                 u = sw.unnormalized_log_weights
@@ -279,6 +300,8 @@ def items(tier):
                         if n == 3 and op > 0 and tier == "quick" and order not in ((0, 1, 2), (2, 0, 1)):
                             continue
                         wts.append((k, op, perm, 1.3, n, order))
+                        if perm and order == tuple(range(n)) and n >= 2:
+                            wts.append((k, op, perm, 1.3, n, order, True))
     return prop, wts
 
 
@@ -304,13 +327,13 @@ def main(tier, seed):
         if len(chk.samples) < 2 and m == 2 and r["ncand"] > 3:
             chk.sample({"proposal_case": r["item"], "placements": r["ncand"], "executions_of_sample": r["nexec"]})
     for r in pool_imap(weights_case, wts, chunksize=1):
-        k, op, perm, alpha, n, order = r["item"]
+        k, op, perm, alpha, n, order = r["item"][:6]
         chk.transitions += r["nexec"] + r["cond"]
         chk.traces_validated += r["nexec"] + r["cond"]
         chk.bump("placement_paths", r["paths"])
         if r["paths"] >= 2:
             chk.nontrivial.add(("w",) + tuple(r["item"]))
-        key = {"sub": "weights", "kernel": k, "outlier_proposal": op > 0, "perm": perm, "n": n}
+        key = {"sub": "weights", "kernel": k, "outlier_proposal": op > 0, "perm": perm, "n": n, "warm_caches_other_alpha": len(r["item"]) > 6}
         for pr in r["problems"][:2]:
             chk.violation(dict(key, what=pr[0]), {"case": r["item"], "problem": pr}, {"kind": "weights", "item": r["item"]})
         if len(chk.samples) < 4 and n == 3:
